@@ -32,27 +32,41 @@ def run_rows(pid, spec, prefixes, ctxs=CTXS_DEFAULT, regs_fn=None, prep_kw=None,
     ls = lockstep.LockStep(pid, rng)
     rows = family_rows(prefixes)
     tabs = tables()
-    for ri, (kind, row) in enumerate(rows):
-        if ri % spec['of'] != spec['shard']:
-            continue
-        ls.bump('rows_visited')
-        for j in range(spec['per_row']):
-            w = lockstep.gen_word(tabs[kind], row, rng)
-            if w is None:
-                ls.bump('word_generation_failed')
+
+    def words():
+        for ri, (kind, row) in enumerate(rows):
+            if ri % spec['of'] != spec['shard']:
                 continue
-            ctxkey = ctxs[rng.randrange(len(ctxs))]
-            ctx = ls.ctx(ctxkey)
-            ns = rng.randrange(2) if ctx.cfg['have_security_ext'] else 0
-            mode = rng.choice(ctx.legal_modes(ns))
-            itpos = 'out' if kind == 'arm' else (itpos_fn(rng) if itpos_fn else rng.choice(['out', 'out', 'mid', 'last']))
-            regs = regs_fn(rng) if regs_fn else [M.rand32(rng) for _ in range(15)]
-            kw = dict(prep_kw(rng) if prep_kw else {})
-            desc = scen.prepare(ctx, rng, kind, w, mode=mode, itpos=itpos, ns=ns, regs=regs, **kw)
-            if after:
-                after(ctx, rng, desc)
-            ls.res['sets']['contexts'].add('%s/%s/%s' % (ctxkey[0], mode, kind))
-            ls.judge(ctx, desc, 'it-' + itpos, keyfn=keyfn)
+            ls.bump('rows_visited')
+            for j in range(spec['per_row']):
+                w = lockstep.gen_word(tabs[kind], row, rng)
+                if w is None:
+                    ls.bump('word_generation_failed')
+                    continue
+                yield kind, row, w
+        # words next to an alias / special-case encoding of another row (all rows of the family, a share per shard)
+        wanted = {}
+        for kind, row in rows:
+            wanted.setdefault(kind, set()).add(id(row))
+        for kind, ids in wanted.items():
+            attempts = max(200, (len(tabs[kind].rows) * spec['per_row'] // 3) // spec['of'])
+            for w, row in lockstep.neighbour_words(tabs[kind], ids, rng, attempts):
+                ls.bump('alias_neighbour_words')
+                yield kind, row, w
+
+    for kind, row, w in words():
+        ctxkey = ctxs[rng.randrange(len(ctxs))]
+        ctx = ls.ctx(ctxkey)
+        ns = rng.randrange(2) if ctx.cfg['have_security_ext'] else 0
+        mode = rng.choice(ctx.legal_modes(ns))
+        itpos = 'out' if kind == 'arm' else (itpos_fn(rng) if itpos_fn else rng.choice(['out', 'out', 'mid', 'last']))
+        regs = regs_fn(rng) if regs_fn else [M.rand32(rng) for _ in range(15)]
+        kw = dict(prep_kw(rng) if prep_kw else {})
+        desc = scen.prepare(ctx, rng, kind, w, mode=mode, itpos=itpos, ns=ns, regs=regs, **kw)
+        if after:
+            after(ctx, rng, desc)
+        ls.res['sets']['contexts'].add('%s/%s/%s' % (ctxkey[0], mode, kind))
+        ls.judge(ctx, desc, 'it-' + itpos, keyfn=keyfn)
     ls.res['violations'] = list(ls.viol.values())
     return ls.res
 
